@@ -14,10 +14,12 @@ KindsProg == {"resp", "notif", "prog"}
 \* a server cannot answer a request it has not received: in the concurrent instance
 \* id-bearing messages for caller c arrive only after c started
 View == <<now, inq, narr, cfg, st, deadline, pollAt, outcome, reqWritten, cancelNotifs,
-          cancelled, cancelAt, progLog, progArr, firstMatch, startedAt>>
+          cancelled, cancelAt, progLog, progArr, firstMatch, startedAt, entering, waitq, hand>>
 \* bound for the quick instance: a caller starts at time 0 or 1 (a response may still be queued
 \* before the request is sent)
 \* a server cannot answer a request it has not received (concurrent instance)
-AnswerAfterRequest == \A i \in 1..Len(inq) : inq[i].id \in Callers => st[inq[i].id] # "idle"
+AnswerAfterRequest ==
+  /\ \A i \in 1..Len(inq) : inq[i].id \in Callers => st[inq[i].id] # "idle"
+  /\ \A c \in Callers : hand[c] # None /\ hand[c].id \in Callers => st[hand[c].id] # "idle"
 StartEarly == \A c \in Callers : st[c] = "idle" => now <= 1
 =============================================================================
